@@ -332,8 +332,13 @@ def build_struct(case, surface=None, setup=True, mode="auto", complex_=False):
         ivc.add_output("point_masses", val=np.array(case["point_masses"], float).reshape(-1), units="kg")
         ivc.add_output("point_mass_locations", val=np.array(case["point_mass_locations"], float), units="m")
         ivc.add_output("engine_thrusts", val=np.array(case["engine_thrusts"], float).reshape(-1), units="N")
+    if surface.get("distributed_fuel_weight"):
+        ivc.add_output("fuel_mass", val=float(case.get("fuel_mass", AS_FLOW_DEFAULT["fuel_mass"])), units="kg")
     prob.model.add_subsystem("iv", ivc, promotes=["*"])
     prob.model.add_subsystem(surface["name"], SpatialBeamAlone(surface=surface), promotes=["*"])
+    if surface.get("distributed_fuel_weight"):
+        prob.model.connect("struct_setup.fuel_vols", "struct_states.fuel_vols")
+        prob.model.connect("fuel_mass", "struct_states.fuel_mass")
     if setup:
         with warnings.catch_warnings():
             warnings.simplefilter("ignore")
